@@ -137,7 +137,37 @@ def conjuncts(t):
     return [t]
 
 
+def _const_truth(t):
+    """True / False when the test is decided by its spelling (None is None, not True, ...), else None"""
+    if isinstance(t, ast.Constant):
+        return bool(t.value)
+    if isinstance(t, ast.Compare) and len(t.ops) == 1 and isinstance(t.left, ast.Constant) and isinstance(t.comparators[0], ast.Constant):
+        l, r = t.left.value, t.comparators[0].value
+        op = t.ops[0]
+        if isinstance(op, ast.Is):
+            return l is r
+        if isinstance(op, ast.IsNot):
+            return l is not r
+        if isinstance(op, ast.Eq):
+            return l == r
+        if isinstance(op, ast.NotEq):
+            return l != r
+    if isinstance(t, ast.UnaryOp) and isinstance(t.op, ast.Not):
+        v = _const_truth(t.operand)
+        return None if v is None else not v
+    return None
+
+
 class _Hoist(ast.NodeTransformer):
+    def visit_IfExp(self, node):
+        self.generic_visit(node)
+        v = _const_truth(node.test)
+        if v is True:
+            return node.body
+        if v is False:
+            return node.orelse
+        return node
+
     """f(a if c else b) -> (f(a) if c else f(b)) for single-argument calls; not (not x) -> x; not (a == b) -> a != b"""
 
     def visit_Call(self, node):
@@ -343,6 +373,41 @@ def _is_path(e):
     return isinstance(e, ast.Name)
 
 
+def _single_exit(fn):
+    """no yield; at most one return and that is the last statement of the body"""
+    rets = [n for n in _walk_own(fn) if isinstance(n, ast.Return)]
+    if any(isinstance(n, (ast.Yield, ast.YieldFrom, ast.Await)) for n in _walk_own(fn)):
+        return False
+    if not rets:
+        return True
+    return len(rets) == 1 and fn.body and fn.body[-1] is rets[0]
+
+
+class _Prefixed:
+    """view of the shared cell table in which a callee's local names are kept apart from the caller's"""
+
+    def __init__(self, base, prefix):
+        self.base, self.prefix = base, prefix
+
+    def __contains__(self, k):
+        return self.prefix + k in self.base
+
+    def __getitem__(self, k):
+        return self.base[self.prefix + k]
+
+    def __setitem__(self, k, v):
+        self.base[self.prefix + k] = v
+
+    def __len__(self):
+        return len(self.base)
+
+    def pop(self, k, d=None):
+        return self.base.pop(self.prefix + k, d)
+
+    def items(self):
+        return [(k[len(self.prefix):], v) for k, v in self.base.items() if k.startswith(self.prefix)]
+
+
 class _State:
     __slots__ = ('env', 'guards', 'ctx', 'depth')
 
@@ -360,22 +425,54 @@ class _State:
 
 
 class Summarizer:
-    def __init__(self, fnode, inline_call=None):
+    def __init__(self, fnode, inline_call=None, helpers=None, depth=0):
         self.fnode = fnode
         self.cells = find_cells(fnode)
         self.cell_sym = {}
         self.effects = []
+        self.helpers = helpers or {}      # name -> FunctionDef of module-level private helpers
+        self.helper_nodes = {}            # every module-level function (for extend(<helper>) expansion)
+        self.depth = depth
+        self.closures = {}                # name -> FunctionDef of nested defs (statement-level inlining)
         self.npaths = 0
         self.negof = {}
         self.gast = {}
+        self.local_defs = {}
         self.inline_call = inline_call
 
     # -- helpers
     def val(self, e, st):
         v = subst(e, st.env)
+        if self.local_defs:
+            v = self._inline_local(v, st, 0)
         if self.inline_call is not None:
             v = self.inline_call(v)
         return v
+
+    def _inline_local(self, v, st, depth):
+        """calls to side-effect-free closures defined in this function are replaced by their value"""
+        me = self
+
+        class L(ast.NodeTransformer):
+            def visit_Call(self, node):
+                self.generic_visit(node)
+                if isinstance(node.func, ast.Name) and node.func.id in me.local_defs and depth < 3:
+                    params, defaults, ret = me.local_defs[node.func.id]
+                    if any(isinstance(a, ast.Starred) for a in node.args) or any(k.arg is None for k in node.keywords):
+                        return node
+                    env = dict(zip(params, node.args))
+                    for k in node.keywords:
+                        if k.arg in params:
+                            env[k.arg] = k.value
+                    for p_ in params:
+                        if p_ not in env:
+                            if p_ not in defaults:
+                                return node
+                            env[p_] = defaults[p_]
+                    outer = {k: v2 for k, v2 in st.env.items() if k not in params}
+                    return me._inline_local(subst(subst(ret, env), outer), st, depth + 1)
+                return node
+        return L().visit(v)
 
     def text(self, e, st):
         return canon(self.val(e, st))
@@ -484,15 +581,93 @@ class Summarizer:
                     break
         return states
 
+    def inline_stmt_call(self, call, st):
+        """`call` is the whole right-hand side / statement.  If it calls a single-exit closure of this function or a single-exit
+        private helper of the module, its body is executed here (parameters bound to the arguments, its own locals kept apart)
+        and the returned value is handed back:  -> (states, value node or None)  or None when not applicable."""
+        if self.depth >= 3 or not isinstance(call, ast.Call) or not isinstance(call.func, ast.Name):
+            return None
+        fn = self.closures.get(call.func.id)
+        closure = fn is not None
+        if fn is None:
+            fn = self.helpers.get(call.func.id)
+            if fn is None or call.func.id in st.env:
+                return None
+        if fn is self.fnode or any(isinstance(a, ast.Starred) for a in call.args) or any(k.arg is None for k in call.keywords):
+            return None
+        a = fn.args
+        if a.vararg or a.kwarg:
+            return None
+        params = [p.arg for p in a.posonlyargs + a.args]
+        defaults = dict(zip(params[len(params) - len(a.defaults):], a.defaults))
+        for p_, d in zip(a.kwonlyargs, a.kw_defaults):
+            params.append(p_.arg)
+            if d is not None:
+                defaults[p_.arg] = d
+        env = {}
+        for p_, arg in zip(params, call.args):
+            env[p_] = self.val(arg, st)
+        for k in call.keywords:
+            if k.arg not in params:
+                return None
+            env[k.arg] = self.val(k.value, st)
+        for p_ in params:
+            if p_ not in env:
+                if p_ not in defaults:
+                    return None
+                env[p_] = clone(defaults[p_])
+        sub = Summarizer(fn, self.inline_call, self.helpers, self.depth + 1)
+        sub.helper_nodes = self.helper_nodes
+        sub.effects = self.effects
+        sub.negof, sub.gast = self.negof, self.gast
+        sub.cell_sym = _Prefixed(self.cell_sym, f'{call.func.id}@{getattr(call, "lineno", 0)}:')
+        base = dict(st.env) if closure else {}
+        base.update(env)
+        mark = len(self.effects)
+        body = list(fn.body)
+        ret = None
+        if body and isinstance(body[-1], ast.Return):
+            ret = body[-1].value
+            body = body[:-1]
+        try:
+            start = _State(base, list(st.guards), list(st.ctx), st.depth)
+            ends = sub.run(body, [start])
+        except Opaque:
+            del self.effects[mark:]
+            return None
+        if len(ends) != 1:
+            del self.effects[mark:]
+            return None
+        end = ends[0]
+        value = None
+        if ret is not None:
+            if isinstance(ret, (ast.ListComp, ast.SetComp, ast.DictComp)):
+                sym = sub.new_cell(f'<ret{ret.lineno}>', self._EMPTY[type(ret)], end, body[-1] if body else fn)
+                sub.expand_comp(sym, ret, end, fn)
+                value = sym
+            else:
+                value = sub.val(ret, end)
+        out = st.fork()
+        return [out], value
+
     def assign_name(self, name, value_node, st, node):
         """-> list of states"""
+        inl = self.inline_stmt_call(value_node, st) if isinstance(value_node, ast.Call) else None
+        if inl is not None and inl[1] is not None:
+            states, value = inl
+            s3 = states[0]
+            s3.env[name] = value
+            if isinstance(value, ast.Name) and value.id.startswith('#'):
+                self.cells.discard(name)
+            return [s3]
         s2 = st.fork()
         if isinstance(value_node, (ast.ListComp, ast.SetComp, ast.DictComp)):
             # x = [f(t) for t in it if c]  ==  x = []; for t in it: if c: x.append(f(t))
             self.cells.add(name)
             self.cell_sym.pop(name, None) if name not in self.cell_sym else None
+            pre = st.fork()
             sym = self.new_cell(name, self._EMPTY[type(value_node)], s2, node)
-            self.expand_comp(sym, value_node, s2, node)
+            self.expand_comp(sym, value_node, pre, node)
             return [s2]
         vv = self.val(value_node, st)
         if name in self.cells and name not in self.cell_sym and _is_path(vv) and not self._rebound_in_loop(name):
@@ -581,9 +756,20 @@ class Summarizer:
                 self.emit(kind, self.text(v, st) if v is not None else 'None', st, s)
                 return [st]
             c = s.value
+            inl = self.inline_stmt_call(c, st) if isinstance(c, ast.Call) else None
+            if inl is not None:
+                return inl[0]
             if isinstance(c, ast.Call) and isinstance(c.func, ast.Attribute) and len(c.args) == 1 and not c.keywords:
                 a0 = c.args[0]
                 recv = self.val(c.func.value, st)
+                if c.func.attr == 'extend' and isinstance(a0, ast.Call) and isinstance(a0.func, ast.Name) and a0.func.id in self.helper_nodes:
+                    sb = _simple_body(self.helper_nodes[a0.func.id], allow_comp=True)
+                    if sb is not None and isinstance(sb[2], (ast.ListComp, ast.GeneratorExp)) and not a0.keywords \
+                            and len(a0.args) == len(sb[0]) and not any(isinstance(x, ast.Starred) for x in a0.args):
+                        body = subst(sb[2], {p_: self.val(x, st) for p_, x in zip(sb[0], a0.args)})
+                        pre = _State({}, list(st.guards), list(st.ctx), st.depth)
+                        self.expand_comp(recv, ast.ListComp(elt=body.elt, generators=body.generators), pre, s)
+                        return [st]
                 if c.func.attr == 'extend' and isinstance(a0, (ast.ListComp, ast.GeneratorExp)):
                     self.expand_comp(recv, ast.ListComp(elt=a0.elt, generators=a0.generators), st, s)
                     return [st]
@@ -627,6 +813,10 @@ class Summarizer:
             if s.value is None:
                 self.emit('return', 'None', st, s)
                 return []
+            inl = self.inline_stmt_call(s.value, st) if isinstance(s.value, ast.Call) else None
+            if inl is not None and inl[1] is not None:
+                self.emit('return', canon(inl[1]), inl[0][0], s, rhs=inl[1])
+                return []
             if isinstance(s.value, (ast.ListComp, ast.SetComp, ast.DictComp)):
                 s2 = st.fork()
                 sym = self.new_cell(f'<ret{s.lineno}>', self._EMPTY[type(s.value)], s2, s)
@@ -659,6 +849,11 @@ class Summarizer:
             return [s2]
         if isinstance(s, ast.If):
             tv = self.val(s.test, st)
+            known = _const_truth(hoist(tv))
+            if known is True:
+                return self.run(s.body, [st.fork()])
+            if known is False:
+                return self.run(s.orelse, [st.fork()])
             t = self.guard(tv)
             nt = self.guard(neg_ast(tv))
             self.negof[t] = nt
@@ -751,7 +946,14 @@ class Summarizer:
                 self.run(s.finalbody, [fx])
                 res = fin
             return res
-        if isinstance(s, (ast.FunctionDef, ast.AsyncFunctionDef, ast.ClassDef, ast.Import, ast.ImportFrom, ast.Global, ast.Nonlocal)):
+        if isinstance(s, ast.FunctionDef):
+            sb = _simple_body(s, allow_comp=True)
+            if sb is not None:
+                self.local_defs[s.name] = sb
+            elif _single_exit(s):
+                self.closures[s.name] = s
+            return [st]
+        if isinstance(s, (ast.AsyncFunctionDef, ast.ClassDef, ast.Import, ast.ImportFrom, ast.Global, ast.Nonlocal)):
             return [st]
         raise Opaque(f'{type(s).__name__} at line {getattr(s, "lineno", 0)}')
 
@@ -893,7 +1095,7 @@ def _as_expr(stmts, env):
     return None
 
 
-def _simple_body(fn):
+def _simple_body(fn, allow_comp=False):
     """(params, defaults, returned expression) for a side-effect-free helper: [docstring], plain assignments, if/elif/else and
     returns only (early returns become conditional expressions) - else None."""
     if fn.args.vararg or fn.args.kwarg or fn.decorator_list:
@@ -904,7 +1106,7 @@ def _simple_body(fn):
     ret = _as_expr(list(fn.body), {})
     if ret is None:
         return None
-    if isinstance(ret, (ast.ListComp, ast.SetComp, ast.DictComp, ast.GeneratorExp)):
+    if not allow_comp and isinstance(ret, (ast.ListComp, ast.SetComp, ast.DictComp, ast.GeneratorExp)):
         # a helper that builds a collection may equally be written as a loop: keep the call symbolic in both spellings
         return None
     a = fn.args
@@ -926,6 +1128,8 @@ def make_inliner(module, only_private=True, max_depth=4):
         if '.' in name:
             continue
         if only_private and not name.startswith('_'):
+            continue
+        if name in SUBJECTS.get(module.short, ()):
             continue
         sb = _simple_body(fi.node)
         if sb is not None:
@@ -963,11 +1167,36 @@ def make_inliner(module, only_private=True, max_depth=4):
     return inline
 
 
+# Functions that have a specification of their own in some rule: they stay symbolic (a call to them is not expanded) in the
+# summaries of their callers.  Every other private single-exit helper - in particular one introduced by an 'extract function'
+# refactoring - is expanded where it is called as a whole statement / right-hand side / returned value.
+SUBJECTS = {
+    'taxonomy': {'_synsets_for_pos', '_hypernym_paths', '_shortest_hyp_paths'},
+    'similarity': {'_least_common_subsumers', '_most_informative_lcs', '_check_if_pos_compatible'},
+    'ic': {'_initialize', '_parse_ic_file'},
+    'validate': {'_select_checks', '_multiples', '_non_unique_id', '_has_no_senses', '_redundant_sense', '_redundant_entry', '_missing_synset',
+                 '_empty_synset', '_repeated_ili', '_missing_ili_definition', '_spurious_ili_definition', '_blank_synset_definition',
+                 '_blank_synset_example', '_repeated_synset_definition', '_missing_relation_target', '_invalid_relation_type',
+                 '_redundant_relation', '_missing_reverse_relation', '_hypernym_wrong_pos', '_self_loop'},
+    '_core': {'_find_helper', '_to_lexicon'},
+    '_add': {'_precheck', '_add_lexical_resource', '_insert_lexicon', '_add_lmf', '_add_ili'},
+    '_export': {'_precheck', '_export_lexicon'},
+    'lmf': {'_read_header', '_make_parser', '_validate', '_quick_scan', '_meta_dict'},
+    '_db': {'_init_db', '_check_schema_compatibility'},
+    '_queries': set(),
+}
+
+
 def module_summary(ctx, modshort, qualname):
     """summary of a function with the simple private helpers of its module inlined (cached on the repo)."""
     f = ctx.repo.func(modshort, qualname)
 
     def build():
         inl = ctx.repo.cache(('inliner', f.module.name), lambda: make_inliner(f.module))
-        return Summarizer(f.node, inl).summarize()
+        keep = SUBJECTS.get(f.module.short, set())
+        helpers = {n: fi.node for n, fi in f.module.funcs.items() if '.' not in n and n.startswith('_') and _single_exit(fi.node)
+                   and n not in inl.simple and n not in keep}
+        sm = Summarizer(f.node, inl, helpers)
+        sm.helper_nodes = {n: fi.node for n, fi in f.module.funcs.items() if '.' not in n}
+        return sm.summarize()
     return f, ctx.repo.cache(('summary', f.key), build)
